@@ -38,6 +38,7 @@ type Solver struct {
 	Time    time.Duration
 	Log     io.Writer
 	LastErr string
+	WaitTime time.Duration // total time blocked reading solver answers (checks, models, values)
 	stack   []int // ids of the path-condition nodes asserted, one push level each
 }
 
@@ -175,6 +176,8 @@ func (s *Solver) Check(conj []*term.Term) (Result, error) {
 }
 
 func (s *Solver) readLine() (string, error) {
+	t0 := time.Now()
+	defer func() { s.WaitTime += time.Since(t0) }()
 	for {
 		l, err := s.out.ReadString('\n')
 		if err != nil {
@@ -199,43 +202,14 @@ func (s *Solver) readLine() (string, error) {
 // Model must be called right after a Sat result; it pops afterwards.
 func (s *Solver) Model(vars []*term.Term) (map[string]uint64, error) {
 	defer s.send("(pop 1)")
+	ids, err := s.ModelIDs(vars)
+	if err != nil {
+		return nil, err
+	}
 	m := map[string]uint64{}
 	for _, v := range vars {
-		if !s.defined[v.ID] {
-			continue // not part of this solver's vocabulary: unconstrained
-		}
-		s.send("(get-value (" + v.Name + "))")
-		s.in.Flush()
-		l, err := s.readLine()
-		if err != nil {
-			return nil, err
-		}
-		if strings.HasPrefix(l, "(error") {
-			return nil, fmt.Errorf("get-value: %s", l)
-		}
-		l = strings.TrimSuffix(strings.TrimPrefix(l, "(("), "))")
-		parts := strings.SplitN(l, " ", 2)
-		if len(parts) != 2 {
-			return nil, fmt.Errorf("bad get-value: %q", l)
-		}
-		val := strings.TrimSpace(parts[1])
-		switch {
-		case val == "true":
-			m[v.Name] = 1
-		case val == "false":
-			m[v.Name] = 0
-		case strings.HasPrefix(val, "#x"):
-			u, _ := strconv.ParseUint(val[2:], 16, 64)
+		if u, ok := ids[v.ID]; ok {
 			m[v.Name] = u
-		case strings.HasPrefix(val, "#b"):
-			u, _ := strconv.ParseUint(val[2:], 2, 64)
-			m[v.Name] = u
-		case strings.HasPrefix(val, "(_ bv"):
-			f := strings.Fields(val)
-			u, _ := strconv.ParseUint(strings.TrimPrefix(f[1], "bv"), 10, 64)
-			m[v.Name] = u
-		default:
-			return nil, fmt.Errorf("bad value %q", val)
 		}
 	}
 	return m, nil
@@ -248,6 +222,15 @@ func (s *Solver) Pop() { s.send("(pop 1)") }
 func (s *Solver) Value(t *term.Term) (uint64, error) {
 	if !s.defined[t.ID] && t.Op != term.OpConst {
 		return 0, fmt.Errorf("Value: term must be defined before check-sat")
+	}
+	if s.Kind == "z3" || s.Kind == "z3-new" {
+		s.send("(eval " + t.Ref() + " :completion true)")
+		s.in.Flush()
+		l, err := s.readLine()
+		if err != nil {
+			return 0, err
+		}
+		return parseVal(l)
 	}
 	s.send("(get-value (" + t.Ref() + "))")
 	s.in.Flush()
@@ -339,3 +322,110 @@ func (s *Solver) CheckInc(pc []PCItem, extra []*term.Term) (Result, error) {
 
 // Define makes t known to the solver (must happen before the check-sat whose model is read).
 func (s *Solver) Define(t *term.Term) { s.define(t) }
+
+// ModelIDs reads the values of vars (after a Sat answer, frame stays open) in one round trip;
+// the result maps term IDs to values.
+func (s *Solver) ModelIDs(vars []*term.Term) (map[int]uint64, error) {
+	m := map[int]uint64{}
+	var names []string
+	var used []*term.Term
+	for _, v := range vars {
+		if s.defined[v.ID] {
+			names = append(names, v.Name)
+			used = append(used, v)
+		}
+	}
+	if len(names) == 0 {
+		return m, nil
+	}
+	if s.Kind == "z3" || s.Kind == "z3-new" {
+		// z3's get-value is slow on large incremental contexts (~40 ms); (eval x) is not
+		for _, n := range names {
+			s.send("(eval " + n + " :completion true)")
+		}
+		s.in.Flush()
+		for _, v := range used {
+			l, err := s.readLine()
+			if err != nil {
+				return nil, err
+			}
+			u, err := parseVal(l)
+			if err != nil {
+				return nil, err
+			}
+			m[v.ID] = u
+		}
+		return m, nil
+	}
+	s.send("(get-value (" + strings.Join(names, " ") + "))")
+	s.in.Flush()
+	l, err := s.readLine()
+	if err != nil {
+		return nil, err
+	}
+	if strings.HasPrefix(l, "(error") {
+		return nil, fmt.Errorf("get-value: %s", l)
+	}
+	// ((n1 v1) (n2 v2) ...)
+	l = strings.TrimSpace(l)
+	l = strings.TrimPrefix(l, "(")
+	l = strings.TrimSuffix(l, ")")
+	i := 0
+	for _, v := range used {
+		j := strings.Index(l[i:], "("+v.Name+" ")
+		if j < 0 {
+			return nil, fmt.Errorf("get-value: %s missing in %q", v.Name, l)
+		}
+		st := i + j + len(v.Name) + 2
+		depth, k := 0, st
+		for ; k < len(l); k++ {
+			if l[k] == '(' {
+				depth++
+			} else if l[k] == ')' {
+				if depth == 0 {
+					break
+				}
+				depth--
+			}
+		}
+		val := strings.TrimSpace(l[st:k])
+		i = k
+		switch {
+		case val == "true":
+			m[v.ID] = 1
+		case val == "false":
+			m[v.ID] = 0
+		case strings.HasPrefix(val, "#x"):
+			u, _ := strconv.ParseUint(val[2:], 16, 64)
+			m[v.ID] = u
+		case strings.HasPrefix(val, "#b"):
+			u, _ := strconv.ParseUint(val[2:], 2, 64)
+			m[v.ID] = u
+		case strings.HasPrefix(val, "(_ bv"):
+			f := strings.Fields(val)
+			u, _ := strconv.ParseUint(strings.TrimPrefix(f[1], "bv"), 10, 64)
+			m[v.ID] = u
+		default:
+			return nil, fmt.Errorf("bad value %q for %s", val, v.Name)
+		}
+	}
+	return m, nil
+}
+
+func parseVal(val string) (uint64, error) {
+	val = strings.TrimSpace(val)
+	switch {
+	case val == "true":
+		return 1, nil
+	case val == "false":
+		return 0, nil
+	case strings.HasPrefix(val, "#x"):
+		return strconv.ParseUint(val[2:], 16, 64)
+	case strings.HasPrefix(val, "#b"):
+		return strconv.ParseUint(val[2:], 2, 64)
+	case strings.HasPrefix(val, "(_ bv"):
+		f := strings.Fields(val)
+		return strconv.ParseUint(strings.TrimPrefix(f[1], "bv"), 10, 64)
+	}
+	return 0, fmt.Errorf("bad value %q", val)
+}
